@@ -117,6 +117,7 @@ class GatedObserver:
         self.path_kind = path_kind
         self.event_filter = event_filter
         self.drop_noise = drop_noise
+        self.hold_dispatch = None        # a threading.Event while the handler is held (dispatcher lags behind the emitter)
         self.gate_poll = Gate("poll")
         self.gate_emit = Gate("emit")
         self.vclock = VClock()
@@ -248,6 +249,8 @@ class GatedObserver:
 
         class H(FileSystemEventHandler):
             def on_any_event(h, event):
+                if me.hold_dispatch is not None:
+                    me.hold_dispatch.wait(30)        # a slow handler: the dispatcher falls behind the emitter
                 with me._lock:
                     me.events.append(event)
 
@@ -363,7 +366,30 @@ class GatedObserver:
         self.gate_emit.release()
         if not self._await(self.gate_emit, self.emitter_alive, "emitter thread"):
             self._emitter_parked = False       # the emitter stopped itself (root deleted) or crashed
-        self.observer.event_queue.join()
+        if self.hold_dispatch is not None:
+            return []                    # the events pile up in the observer's queue; release_dispatch() collects them
+        self._join_queue()
+        return self.events[n0:]
+
+    def _join_queue(self, timeout=8.0):
+        """event_queue.join() with a time limit (a queue whose task accounting is broken would block for ever)."""
+        q = self.observer.event_queue
+        t0 = _time.time()
+        with q.all_tasks_done:
+            while q.unfinished_tasks:
+                left = timeout - (_time.time() - t0)
+                if left <= 0:
+                    raise Hang(f"the observer's event queue did not drain: unfinished_tasks={q.unfinished_tasks}, "
+                               f"queued={len(q.queue)} (errors={self.thread_errors})")
+                q.all_tasks_done.wait(min(left, 0.5))
+
+    def release_dispatch(self):
+        """End a held-dispatcher phase: every event queued meanwhile is delivered now; returns them."""
+        n0 = len(self.events)
+        ev, self.hold_dispatch = self.hold_dispatch, None
+        if ev is not None:
+            ev.set()
+        self._join_queue()
         return self.events[n0:]
 
     def tick(self, units):
